@@ -19,7 +19,15 @@
                                          <keyhex> none <route> | <keyhex> <len> <fnv64> <route> ... end
                                          (ReadPath.lookup, the mirror of NOMT's read path, on the opened image;
                                           route = nobranch | nochild:<bbn> | noleaf:<bbn>:<i>:<ln> |
-                                                  miss:<bbn>:<i>:<ln> | hit:<bbn>:<i>:<ln>) *)
+                                                  miss:<bbn>:<i>:<ln> | hit:<bbn>:<i>:<ln>)
+   imgseekkeys <n>                    -> e <keyhex> for up to n present keys whose terminal lies below an ELIDED
+                                         page (SeekPath.under_elided; evenly spread) ... end      (seek targets)
+   imgseek <keyhex> ...               -> wf_root ok|FAIL, then per key
+                                         <keyhex> none | <keyhex> leaf <leafkeyhex> <sd> <n> <hex64>*n |
+                                         <keyhex> term <depth> <sd> <n> <hex64>*n ... end
+                                         (SeekPath.seek_with, the mirror of Session::prove, on the opened image
+                                          with the uploaded hash oracle; sd = stored pages on the key's page
+                                          path, n siblings root first) *)
 
 open BinNums
 
@@ -351,6 +359,43 @@ let handle (toks : string list) : string option =
                        | None -> Printf.sprintf "%s none %s" hk r
                        | Some v -> Printf.sprintf "%s %d %016Lx %s" hk (Stdlib.List.length v) (fnv64 v) r)
                      keys))
+      | Image.Err _ -> Some (lines [ "undecodable" ]))
+  | [ "imgseekkeys"; n ] -> (
+      match image () with
+      | Image.Ok img ->
+          let n = max 1 (int_of_string n) in
+          let pages = SeekPath.img_pages img in
+          let rt = Image.ref_trie img in
+          let hits =
+            Stdlib.List.filter (fun (k, _) -> SeekPath.under_elided pages rt k) (Image.abs_kv img)
+          in
+          let a = Stdlib.Array.of_list hits in
+          let len = Stdlib.Array.length a in
+          let picked =
+            if len <= n then hits
+            else Stdlib.List.init n (fun j -> a.(if n = 1 then 0 else j * (len - 1) / (n - 1)))
+          in
+          Some (lines (Stdlib.List.map (fun (k, _) -> "e " ^ hex_of_key k) picked))
+      | Image.Err _ -> Some (lines []))
+  | "imgseek" :: keys -> (
+      match image () with
+      | Image.Ok img ->
+          let pages = SeekPath.img_pages img in
+          let rt = Image.ref_trie img in
+          let kvs = Image.abs_kv img in
+          let one hk =
+            let k = key_of_hex hk in
+            let sd = dec_of_n (SeekPath.stored_depth pages k) in
+            match SeekPath.seek_with hash_of pages kvs rt k with
+            | None -> Printf.sprintf "%s none" hk
+            | Some (sibs, tm) ->
+                let ss = String.concat " " (Stdlib.List.map hex_of_bytes sibs) in
+                let n = Stdlib.List.length sibs in
+                (match tm with
+                 | Trie.TLeaf (lk, _) -> Printf.sprintf "%s leaf %s %s %d %s" hk (hex_of_key lk) sd n ss
+                 | Trie.TTerm path -> Printf.sprintf "%s term %d %s %d %s" hk (Stdlib.List.length path) sd n ss)
+          in
+          Some (lines ((if SeekPath.wf_root img then "wf_root ok" else "wf_root FAIL") :: Stdlib.List.map one keys))
       | Image.Err _ -> Some (lines [ "undecodable" ]))
   | [ "imgstats" ] -> (
       match image () with
